@@ -192,7 +192,12 @@ func (cc *ClientConnection) startTls(conn streams.Connection) (streams.Connectio
 	} else {
 		tlsConfig = &tls.Config{}
 	}
-	tlsConfig.ServerName = cc.host
+	// Verify the certificate against the upstream's host name; the upstream address may carry a port
+	if host, _, err := net.SplitHostPort(cc.host); err == nil {
+		tlsConfig.ServerName = host
+	} else {
+		tlsConfig.ServerName = cc.host
+	}
 
 	log.Tracef("[Client] Executing TLS handshake")
 	tlsConn := tls.Client(conn, tlsConfig)
